@@ -263,6 +263,9 @@ def run(prop, tier, replay):
     if prop == "C08" and not replay:
         from checks.resfault import resfault_stage
         cov.update(resfault_stage(rep, tier, work))
+    if prop == "C09" and not replay:
+        from checks.restartloop import restartloop_stage
+        cov.update(restartloop_stage(rep, tier, work))
     return rep.finish(cov, assumptions=[
         "the logging IoDriver and the generated ST programs are the only instrumentation; everything below Runtime/TestHarness is real",
         "design-level invariants are checked on MCRuntimeCycle for the constants in the .cfg file",
